@@ -32,6 +32,16 @@ class MyAssert(AssertionError):
     pass
 
 
+class MyAssertS(AssertionError):
+    """failureException with a Python-level __str__ (message stays symbolic)."""
+
+    def __init__(self, m='failed'):
+        self.m = m
+
+    def __str__(self):
+        return self.m
+
+
 EXC = [ValueError, KeyError, MyAssert, Boom]
 
 # ---------------------------------------------------------------- layers
